@@ -110,16 +110,22 @@ Lemma raise_parsing_error_fixed_literal :
   forall n tok msg, 0 <= n ->
   raise_parsing_error_fixed n tok msg = MOk (perr_prefix n ++ tok).
 Proof.
-  intros n tok msg Hn. unfold raise_parsing_error_fixed, mps_error.
-  pose proof (prefix_long n tok) as HL.
-  rewrite (interp_prefix_escape n tok [AStr msg] Hn).
-  remember (perr_prefix n ++ tok) as P.
-  destruct (32 <? Z.of_nat (List.length P)) eqn:E; [|lia].
-  change (skipn 0 [AStr msg]) with [AStr msg].
-  rewrite (interp_prefix_escape n tok [AStr msg] Hn). subst P. reflexivity.
+  intros n tok msg Hn. unfold raise_parsing_error_fixed, mps_error_fixed.
+  rewrite (interp_prefix_escape n tok [AStr msg] Hn). reflexivity.
 Qed.
 
-(* refutations for the code as it is *)
+(* the repaired mps_error with the parser's own "%s" message: the argument arrives whole *)
+Lemma unrecognized_option_literal :
+  forall o, mps_error_fixed (str "Unrecognized option: %s") [AStr o] = MOk (str "Unrecognized option: " ++ o).
+Proof.
+  intro o. unfold mps_error_fixed.
+  change (str "Unrecognized option: %s") with (str "Unrecognized option: " ++ [37; 115]).
+  rewrite interp_app_no_percent.
+  - simpl. rewrite rev_app_distr. rewrite !rev_involutive. reflexivity.
+  - vm_compute. intro H. repeat (destruct H as [H|H]; [discriminate H|]). exact H.
+Qed.
+
+(* refutations for the code as it was before the repairs *)
 Lemma format_interpreted_witness :
   raise_parsing_error 7 (str "%%") (str "C09MSG") = MOk (perr_prefix 7 ++ str "%")
   /\ perr_prefix 7 ++ str "%" <> perr_prefix 7 ++ str "%%".
